@@ -111,6 +111,7 @@ func Wrap(p kvdb.DBProducer) *DBProducer {
 		DBProducer: p,
 		cacheState: cacheState{
 			opened:     make(map[string]kvdb.Store),
+			refCounter: make(map[string]int),
 			notDropped: make(map[string]bool),
 		},
 	}
